@@ -3,7 +3,7 @@ import json, random
 import vlib, sendlib, rrlib
 
 def run(chk, replay=None):
-    chk.rule = ("cases = every history of length D over {peer joins with announced identity (short / 255 bytes), peer joins with auto identity, peer joins with an empty Identity property, a new connection re-announces the identity of the departed first peer, a peer sends, recv, send to the first / "
+    chk.rule = ("cases = every history of length D over {peer joins with announced identity (short / 255 bytes), peer joins with auto identity, peer joins with an empty Identity property, a new connection re-announces the identity of the departed first peer, or of the still-connected idle first peer (superseding it), a peer sends, recv, send to the first / "
                 "the last peer, send to an unknown identity, first peer departs (closed and pipe broken)} enumerated by TLC (GenSeq) and executed on a real ROUTER socket, plus "
                 "seeded random schedules with 1-4 peers, random segmentation and departures; judged by TLC (TraceSend); the identity table is model-checked (Router); "
                 "distinct = distinct scripts; non-trivial = all")
@@ -19,7 +19,7 @@ def run(chk, replay=None):
         (chk.model_must_hold if must else chk.model_must_fail)(r, "Router " + cfg + (": labels and routing over all join/leave/send orders, 3 connections x 3 identities" if must else " (spec mutant)"))
     scen = 0
     fam = []
-    for seq in rrlib.gen_seqs(chk, sendlib.ROUTER_OPS, 5 if thorough else 4, ["recv", "depart_first", "rejoin_first"], "router"):
+    for seq in rrlib.gen_seqs(chk, sendlib.ROUTER_OPS, 5 if thorough else 4, ["recv", "depart_first", "rejoin_first", "rejoin_live"], "router"):
         scen += 1; fam.append(sendlib.router_script(seq, scen))
     for s in fam: chk.case(("hist", s["scen"]))
     chk.sample({"kind": "history (TLC-enumerated)", "ops": [o["op"] for o in fam[len(fam) // 2]["ops"]][:14]})
